@@ -179,7 +179,7 @@ def run(ck):
     ])
     ck.note('the type graph (members, parents, aliases, routes` types, enumerated subtypes: faithfulness, closure, acyclicity) is '
             'PROVED for the compile model and tied to the code by comp.compile; docs, defaults, annotations, examples, '
-            'and route attributes are DIFFERENTIAL / INVARIANT TESTING against harness/expected.py, not a proof')
+            'and the attribute dictionaries of routes are DIFFERENTIAL / INVARIANT TESTING against harness/expected.py, not a proof')
     nj = {k[len('faithful.not_judged.'):]: v for k, v in ck.stats.items() if k.startswith('faithful.not_judged.')}
     if nj:
         ck.note('observed and not judged (renderings affected): %s' % json.dumps(nj, sort_keys=True))
